@@ -186,15 +186,15 @@ Qed.
 
 (* the jar only moves on replies urllib returned (2xx): getcookies() is not reached for
    HTTPError replies - their Set-Cookie lines are dropped *)
-Lemma error_replies_leave_jar_l P k c j prev q p :
-  p_challenge p = None -> is_2xx (p_status p) = false -> snd (model_step P k c j prev q p) = j.
+Lemma error_replies_leave_jar_l P k c j prev pm q p :
+  p_challenge p = None -> is_2xx (p_status p) = false -> snd (model_step P k c j prev pm q p) = j.
 Proof.
   intros A B. unfold model_step. rewrite A. unfold urllib_outcome. rewrite B. reflexivity.
 Qed.
 
-Lemma delivered_replies_update_jar_l P k c j prev q p :
+Lemma delivered_replies_update_jar_l P k c j prev pm q p :
   p_challenge p = None -> is_2xx (p_status p) = true ->
-  snd (model_step P k c j prev q p) = fold_left jar_apply (map (resolve (q_path q)) (p_cookies p)) j.
+  snd (model_step P k c j prev pm q p) = fold_left jar_apply (map (resolve (q_path q)) (p_cookies p)) j.
 Proof.
   intros A B. unfold model_step. rewrite A. unfold urllib_outcome. rewrite B. reflexivity.
 Qed.
@@ -202,11 +202,11 @@ Qed.
 (* "any cookies earlier responses set" is false of the faithful model for HTTPError replies:
    a 500 reply setting a=1 leaves the jar empty *)
 Lemma reply_cookies_stored_refuted_l :
-  exists P k c j prev q p,
+  exists P k c j prev pm q p,
     p_challenge p = None /\ p_cookies p <> [] /\
-    snd (model_step P k c j prev q p) <> fold_left jar_apply (map (resolve (q_path q)) (p_cookies p)) j.
+    snd (model_step P k c j prev pm q p) <> fold_left jar_apply (map (resolve (q_path q)) (p_cookies p)) j.
 Proof.
-  exists std_params, TPlain, (None, None), [], [], (mkReq None [47; 115] [] 1 false),
+  exists std_params, TPlain, (None, None), [], [], [], (mkReq None [47; 115] [] 1 (None, None) false),
          (mkResp None 500 None 1 None None [CSet None [97] [49]]).
   split; [reflexivity|]. split; [discriminate|]. vm_compute. discriminate.
 Qed.
